@@ -1,7 +1,7 @@
 """C08 -- loading is deterministic under every thread schedule.
 
 A case carries the bytes of a PDF file written here plus the abstract view of it that the model works on (what
-every loading task reads: `entries`).  The harness loads the bytes under every merge order (hook H1), under real
+every loading task reads: `entries`; for an encrypted file also what decryption makes of every object: `crypt`).  The harness loads the bytes under every merge order (hook H1), under real
 rayon pools and with the sequential build; the model computes the document for every order from the entries."""
 import hashlib
 import os
@@ -879,7 +879,15 @@ SPEC = {
             'number that is only a header number, and a container of 1000-1500 members beside one of two so that real pools finish '
             'against the xref order; every case is loaded under every permutation of the blocks '
             '(<= 6 blocks: all, <= 720) and of the zero-length ids (<= 4: all) through hook H1, 8 times on each rayon '
-            'pool of 1,2,3,4,8,16 threads, and by the --no-default-features build; non-trivial = at least two object streams',
+            'pool of 1,2,3,4,8,16 threads, and by the --no-default-features build; non-trivial = at least two object streams; '
+            'ENCRYPTED files (standard security handler written in python: RC4 128 bit and AESV2; empty user password, so that '
+            'Document::load_mem decrypts and only then expands the object streams inside decrypt_raw) with 2..5 object streams sharing '
+            'object numbers with different bodies, numbers also present as plain objects under generation 0 / 2 / 65535, a member numbered '
+            'like the encryption dictionary or like a container, classic table or cross-reference stream placing the shared numbers in a '
+            'holder / a non-holder / nowhere, two object streams with one object number and different generations, header numbers differing '
+            'from the entry numbers, a non-empty user password (nothing decrypted), cut AES ciphertext (the load fails), a direct encryption '
+            'dictionary, strings in plain objects and stream dictionaries, stream lengths direct / zero / resolvable / defined only inside '
+            'the encrypted object streams, and a container of 1000-1500 members that is first in the order of the objects map beside small ones',
     'extra_trusted': [
         'C08: rayon runs every task exactly once, `collect` keeps source order, and appends made while holding a '
         'std::sync::Mutex are atomic (the schedules of the model are exactly: any cut into jobs, any order of the '
@@ -888,10 +896,16 @@ SPEC = {
         'set it returns the vectors untouched',
         'C08: the per-task parse results (`entries` of a case) are computed by the generator, not by a model of the parser; '
         'a wrong expectation shows as a correspondence failure',
+        'C08: for encrypted files what decrypt_object and ObjectStream::new return (`crypt` of a case) is computed by the generator '
+        '(its own RC4 / AES-128-CBC / MD5 key derivation, which the crate must agree with to open the file at all); the theorems hold '
+        'for every such pair of functions',
     ],
     'partial_note': 'That rayon + Mutex realise only the schedules of the model (each task once, atomic appends, '
                     'order-preserving collect) is an assumption about rayon and std, not proved here; it is sampled by '
-                    'the real-pool runs.  Parsing of the individual objects is outside this property (C02).',
+                    'the real-pool runs.  Parsing of the individual objects is outside this property (C02), and so is what '
+                    'decrypt_object computes (C05): both are inputs of the model.  The expansion of the object streams of an '
+                    'encrypted file (Document::decrypt_raw) is sequential code: there is no order to enumerate through a hook, it is '
+                    'compared across real pools and with the sequential build.',
 }
 
 
@@ -939,13 +953,16 @@ MANIFEST = {
                   'range into jobs, then collect / sort by xref key / only-add merge preferring the container the xref names / zero-length pass): for every file '
                   'and every schedule the loaded document equals the sequential one (C08_par_eq_seq), two schedules give '
                   'the same document (C08_schedule_independent), the zero-length pass commutes (C08_zero_len_commutes); '
+                  'the whole load of an encrypted file -- decryption and the expansion of the object streams inside decrypt_raw, a '
+                  'second only-add merge after the parallel phase -- equals the sequential one for every decrypt / object-stream function '
+                  '(C08_full_par_eq_seq) and that expansion is the reader\'s merge on the container numbers (C08_enc_expansion_as_reader); '
                   'for the merge as it was before the repair the same under the hypothesis that object streams agree on '
                   'shared numbers (C08_pinned_*) and a refutation without it (C08_refuted_pinned).  Tied to the crate by '
                   'loading generated files under every block permutation through hook H1, on rayon pools of '
-                  '1,2,3,4,8,16 threads and with the sequential build.',
+                  '1,2,3,4,8,16 threads and with the sequential build; encrypted files (RC4, AESV2) on the pools and the sequential build.',
     'level_note': 'Trusted: Coq kernel; hand-written model tied by correspondence; the schedule model (rayon runs each task '
                   'once, order-preserving collect, Mutex-atomic appends) is an assumption about rayon/std; per-object '
-                  'parsing is supplied by the generator; hook H1; extraction/OCaml driver; Rust harness.  No axioms.',
+                  'parsing and decryption are supplied by the generator; hook H1; extraction/OCaml driver; Rust harness.  No axioms.',
     'technique': 'Coq proof (Permutation induction, uniqueness of strictly sorted lists, commutation of the stream-fixing '
                  'step via a simulation relation) + exhaustive schedule enumeration through a merge-order hook',
     'design_ref': 'DESIGN.md 6 C08',
